@@ -7,10 +7,13 @@
    Kernel side (C, modelled by hand, tied to the source only by a text hash, see props/C14.py):
      felix/bpf-gpl/conntrack_cleanup.c  process_ccq_entry            -> [clean]
      felix/bpf-gpl/conntrack.h          calico_ct_lookup refresh      -> [packet]
-        line 787  v->last_seen = now;                (the entry that was hit, whatever its type)
-        line 835  tracking_v->last_seen = now;       (NAT_FWD hit: the reverse entry as well, same `now`)
-        line 823-828  NAT_FWD hit with no reverse entry: the forward entry is deleted
-        a hit on the REVERSE key refreshes the reverse entry only (no pointer back to the forward entry).
+        line 786-787  now = bpf_ktime_get_ns(); v->last_seen = now;   (the entry that was hit, whatever its type)
+        line 835      tracking_v->last_seen = now;   (NAT_FWD hit: the reverse entry as well, with the SAME `now`)
+        line 813-819  NAT_FWD hit with no reverse entry: the forward entry is deleted (cali_ct_delete_elem(&k))
+        a hit on the REVERSE key refreshes the reverse entry only (it has no pointer back to the forward entry).
+        Entry creation (lines 157-160 and 322-325) stores last_seen = now, and so does every state change made by a
+        packet: both are the step [DpSet].  tcp_recycled (lines 821-831, a SYN on a closed connection deletes both
+        entries) and LRU eviction are [DpDel] steps.
 
    Definitions only; no proofs in this file. *)
 From Coq Require Import List NArith ZArith Bool.
